@@ -19,7 +19,8 @@ CONSTANTS Kinds,      \* two-ended link kinds offered to constructors
           Fams,       \* enabled call families: subset of {"link","expl","uni","new","laws"}
           InitBV, InitBU,   \* objects that exist initially
           UniEnds,    \* BOOLEAN: universes may be link ends too
-          DoEmit      \* BOOLEAN: print transitions
+          DoEmit,     \* BOOLEAN: print transitions
+          OnlyOps     \* if non-empty, only calls with these op names are offered
 
 VARIABLES S, last
 
@@ -74,11 +75,13 @@ LawCalls ==
      {Call("setlaws", "", <<k, L>>, <<>>) : k \in 1..S.bu, L \in {0} \cup BornLaws}
   \cup {Call("setapp", "", <<L, uo>>, <<>>) : L \in BornLaws, uo \in {0} \cup BornUnis}
 
-Calls == (IF "link" \in Fams THEN LinkCalls ELSE {})
+AllCalls == (IF "link" \in Fams THEN LinkCalls ELSE {})
     \cup (IF "expl" \in Fams THEN ExplCalls ELSE {})
     \cup (IF "uni"  \in Fams THEN UniCalls  ELSE {})
     \cup (IF "new"  \in Fams THEN NewCalls  ELSE {})
     \cup (IF "laws" \in Fams THEN LawCalls  ELSE {})
+
+Calls == IF OnlyOps = {} THEN AllCalls ELSE {c \in AllCalls : c.op \in OnlyOps}
 
 Init == /\ S = BaseState(InitBV, InitBU, TRUE)
         /\ last = [c |-> Call("init", "", <<>>, <<>>), err |-> FALSE, out |-> <<>>]
